@@ -45,6 +45,13 @@ func c09str(s string) interface{} {
 	return s
 }
 
+func c09tf(b bool) string {
+	if b {
+		return "T"
+	}
+	return "F"
+}
+
 func c09obs(f func() bool) string {
 	var r bool
 	p, _ := protect(func() { r = f() })
@@ -102,7 +109,7 @@ func (r *c09rec) val(i int) {
 	r.ops = append(r.ops, []interface{}{"V", i, o})
 	c09stats["op_value"]++
 	if i >= 0 && i < r.n && r.synced {
-		if o != tf(r.shadow[i]) {
+		if o != c09tf(r.shadow[i]) {
 			emit(J{"kind": "oracle", "what": "Value differs from the last value stored at that index (storage not lossless)",
 				"n": r.n, "index": i, "got": o, "want": r.shadow[i], "class": r.class})
 		}
@@ -205,7 +212,7 @@ func (r *c09rec) dec(s string) bool {
 	var err error
 	p, _ := protect(func() { err = r.a.Decode(s) })
 	ok := !p && err == nil
-	o := tf(ok)
+	o := c09tf(ok)
 	if p {
 		o = "P"
 	}
@@ -246,7 +253,7 @@ func (r *c09rec) eqv(bits []bool) {
 				same = false
 			}
 		}
-		if o != tf(same) {
+		if o != c09tf(same) {
 			emit(J{"kind": "oracle", "what": "IsEquivalentTo differs from equality of the stored bits", "n": r.n,
 				"bits": c09bits(r.shadow), "other": c09bits(bits), "got": o, "class": r.class})
 		}
@@ -1018,6 +1025,22 @@ func runC09(args []string) {
 		c09randomWalk(n, steps, rng, canon)
 	}
 	c09decodeTexts(tier, rng)
+	// the witness of theorem C09_memo_stale_after_rejected_decode, replayed on the real code (and, as a case, in Coq)
+	{
+		w := c09new(65, "witness_stale_memo")
+		first := w.enc()
+		w.dec("1:zz")
+		w.raw()
+		second := w.enc()
+		words := w.a.VerifWords()
+		if first == "0:0" && second == "0:0" && len(words) == 2 && words[0] == 1 && words[1] == 0 {
+			c09stats["witness_stale_memo_reproduced_on_implementation"] = 1
+		} else {
+			c09stats["witness_stale_memo_reproduced_on_implementation"] = 0
+		}
+		w.resync()
+		w.done()
+	}
 	c09orderCases(tier, rng)
 	c09portability(tier, rng)
 
